@@ -28,6 +28,13 @@ class Unsupported(Inconclusive):
     pass
 
 
+def guard(e):
+    """call first in every `except Exception as e` that classifies exceptions of the code under test:
+    exceptions of the machinery itself (z3 API misuse, unsupported operation) must never become a verdict"""
+    if isinstance(e, (z3.Z3Exception, Inconclusive)):
+        raise e
+
+
 QUERY_TIMEOUT_MS = 120000
 
 
